@@ -20,6 +20,7 @@ TRIGGERS = ['e0', 'e1', 'e2', 'e3']
 CONDS = ['c0', 'c1', 'c2']
 CBS = ['cb0', 'cb1', 'cb2']
 ATTR = 'status'                      # the custom model_attribute used by generated cases
+MODCB = 'cb9'                        # a state callback that changes the machine (add_transition) in mid-transition
 RETRIG = ['cb5', 'cb6', 'cb7']      # state / transition callbacks that fire an event on the same model
 
 
@@ -327,6 +328,18 @@ def gen_case(rng, nested):
                 rng.choice(index)['enter'].append(cb)
             else:
                 rng.choice(case['transitions'])['after'] = [cb]
+    case['modcb'] = None
+    if not case['enum'] and rng.random() < 0.1:
+        # a state callback that adds a transition to the machine while a state change is in progress
+        pool = []
+
+        def collect2(sts):
+            for st in sts:
+                pool.append(st)
+                collect2(st['children'])
+        collect2(states)
+        case['modcb'] = _gen_trans(rng, names, tops=tops)
+        rng.choice(pool)['exit' if rng.random() < 0.6 else 'enter'].append(MODCB)
     if case['enum']:
         for s in states:
             s['label'] = None
@@ -339,9 +352,32 @@ def gen_case(rng, nested):
     cur_tops = list(tops)
     known = list(case['transitions'])
     n_models = case['n_models']
+    active = list(range(n_models))
+    removed = []
     for _ in range(n_ops):
         r = rng.random()
-        mi = rng.randrange(n_models)
+        # models come and go on a machine that outlives them: remove_model, the same object re-attached (after
+        # deleting its get_graph attribute, which graph machines require), fresh models allocated after removed ones
+        # were dropped and collected (CPython readily reuses the address, hence the id() model_graphs is keyed by)
+        if not case['enum'] and removed and (not active or rng.random() < 0.5):
+            if rng.random() < 0.65:
+                j = removed.pop(rng.randrange(len(removed)))
+                case['ops'].append(['readd_model', j, rng.choice([None] + cur_tops)])
+                active.append(j)
+            else:
+                removed.pop(0)          # the slot whose object is dropped
+                case['ops'].append(['add_model', rng.choice([None] + cur_tops), 'recycle'])
+                active.append(n_models)
+                n_models += 1
+            continue
+        if not case['enum'] and active and rng.random() < 0.07:
+            j = active.pop(rng.randrange(len(active)))
+            case['ops'].append(['remove_model', j])
+            removed.append(j)
+            continue
+        if not active:
+            continue
+        mi = rng.choice(active)
         if rng.random() < 0.12:
             name = rng.choice(['show_auto', 'show_auto', 'show_conditions', 'show_attrs', 'title'])
             case['ops'].append(['set_option', name, rng.choice(['T1', 'T2']) if name == 'title' else rng.random() < 0.6])
@@ -352,6 +388,7 @@ def gen_case(rng, nested):
             continue
         if not case['enum'] and n_models < 3 and rng.random() < 0.06:
             case['ops'].append(['add_model', rng.choice([None] + cur_tops)])
+            active.append(n_models)
             n_models += 1
             continue
         if r < 0.72 or case['enum'] and r < 0.9:
@@ -490,10 +527,12 @@ class Run(object):
             body['state'] = 'Texas'          # the model uses `state` for its own data
         for c in CONDS:
             body[c] = (lambda v: (lambda self, *a, **k: v))(conds[c])
-        for c in CBS + RETRIG:
+        for c in CBS + RETRIG + [MODCB]:
             body[c] = lambda self, *a, **k: None
         for c, ev in case.get('retrig', {}).items():
             body[c] = (lambda e: (lambda self, *a, **k: run._retrigger(self, e)))(ev)
+        if case.get('modcb'):
+            body[MODCB] = lambda self, *a, **k: run._modify()
         self.model_cls = type('Model', (object,), body)
         self.models = []
         self.stack = {}
@@ -502,6 +541,11 @@ class Run(object):
         self.stack = {i: [] for i in range(len(self.models))}
         self.steps = {i: [] for i in range(len(self.models))}
         self.last_src = {i: None for i in range(len(self.models))}     # (scope prefix path, stored source path)
+        self.wiped = {i: False for i in range(len(self.models))}       # graph regenerated since the last state change
+        self.regen_mid = {i: False for i in range(len(self.models))}   # ... while a state change was in progress
+        self.mod_used = False
+        self.removed = set()      # indices of models detached from the machine (slot None once the object is dropped)
+        self.recycled = 0
         cls = machine_class(self.nested, bool(case.get('locked')))
         self.opts = dict(case['opts'])          # current display options (may be set later through the machine)
         o = case['opts']
@@ -548,6 +592,8 @@ class Run(object):
         tr = event_data.transition
         pre = tuple(path_of(x)[0] for x in getattr(event_data.machine, 'prefix_path', []))
         i = self._idx(event_data.model)
+        if not self.stack[i] and tr.dest is not None:
+            self.regen_mid[i] = False       # a new top-level state change resets the styles of this model's graph
         self.stack[i].append((pre, tr.source, tr.dest))
         if tr.dest is not None:
             self.steps[i].append(('begin', pre, path_of(tr.source), path_of(tr.dest)))
@@ -568,6 +614,19 @@ class Run(object):
             pre, src, dst = self.stack[i][-1]
             if dst is not None:
                 self.last_src[i] = (pre, path_of(src))
+                self.wiped[i] = False
+
+    def _modify(self):
+        """a state callback that adds a transition to the machine (once per case), from the root scope"""
+        if self.mod_used:
+            return
+        self.mod_used = True
+        if self.nested:
+            with self.machine():
+                self.machine.add_transition(**trans_arg(self.case['modcb']))
+        else:
+            self.machine.add_transition(**trans_arg(self.case['modcb']))
+        self.regen_all()
 
     def _retrigger(self, model, ev):
         if self.budget > 0:
@@ -576,13 +635,20 @@ class Run(object):
 
     def regen_all(self):
         for i, m in enumerate(self.models):
+            if i in self.removed:        # the machine regenerates the graphs of its registered models only
+                continue
             self.steps[i].append(('regen', self.snapshot(m)))
-            self.last_src[i] = None
+            # a regeneration wipes the `previous` style: the last source MAY no longer carry it (never another state)
+            self.wiped[i] = True
+            self.regen_mid[i] = bool(self.stack.get(i))
 
     def apply(self, op):
         """returns None, or a string when the engine itself failed (the history stops there)"""
         kind = op[0]
         try:
+            if kind in ('remove_model', 'readd_model', 'trigger') and \
+                    (op[1] >= len(self.models) or (op[1] in self.removed) != (kind == 'readd_model')):
+                return 'invalid operation (artefact of shrinking)'
             if kind == 'trigger':
                 # ignore_invalid_triggers=True: unknown / invalid triggers return False; anything raised here
                 # comes from the engine in mid-transition (other properties) and ends the history
@@ -611,12 +677,46 @@ class Run(object):
                 getattr(self.machine, '%s_%s' % (op[1], op[2]))(op[3])
                 st = desc_index(self.states)[path_of(op[2])][0]
                 st['enter' if op[1] == 'on_enter' else 'exit'].append(op[3])
+            elif kind == 'remove_model':
+                self.machine.remove_model(self.models[op[1]])
+                self.removed.add(op[1])
+            elif kind == 'readd_model':
+                m = self.models[op[1]]
+                del m.get_graph                     # the machine refuses to bind get_graph twice
+                self.machine.add_model(m, initial=op[2])
+                self.removed.discard(op[1])
+                del self.stack[op[1]][:]
+                # add_model creates the model's graph anew: a regeneration for the state it was given
+                self.steps[op[1]].append(('regen', self.snapshot(m)))
+                self.last_src[op[1]] = None
+                self.wiped[op[1]] = self.regen_mid[op[1]] = False
             elif kind == 'add_model':
-                m = self.model_cls()
+                m = None
+                if len(op) > 2 and op[2] == 'recycle' and self.removed:
+                    # drop a removed model, collect it, and allocate models until one lands on its address (bounded)
+                    import gc
+                    j = min(k for k in self.removed if self.models[k] is not None) \
+                        if any(self.models[k] is not None for k in self.removed) else None
+                    if j is not None:
+                        old_id = id(self.models[j])
+                        self.models[j] = None
+                        gc.collect()
+                        keep = []
+                        for _ in range(3000):
+                            cand = self.model_cls()
+                            if id(cand) == old_id:
+                                m = cand
+                                self.recycled += 1
+                                break
+                            keep.append(cand)
+                        del keep
+                if m is None:
+                    m = self.model_cls()
                 i = len(self.models)
                 self.stack[i] = []
                 self.steps[i] = []
                 self.last_src[i] = None
+                self.wiped[i] = self.regen_mid[i] = False
                 self.models.append(m)
                 self.machine.add_model(m, initial=op[1])
                 self.cur0[i] = self.snapshot(m)
@@ -900,16 +1000,22 @@ def oracle_edges(run, d, exp, exact):
     return fails
 
 
+SIG_REGEN_MID = 'C16.activity.graph-regenerated-during-state-change'
+
+
 def oracle_activity(run, mi, d):
     fails = []
     cur = set(run.cur(mi))
     allowed_active = closure(cur)
     last = run.last_src[mi]
     last_global = (last[0] + last[1]) if last else None
+    # open finding: a callback regenerated the graph while this model's state change was in progress; the new graph
+    # was styled for the state of that moment (the source) and keeps it next to the destination, `previous` is lost
+    mid = run.regen_mid[mi]
     for n, parent in d.all:
         if n.cls == 1 and n.name not in allowed_active:
             fails.append(('active-style', {'state': name_of(n.name), 'current': sorted(map(name_of, cur))},
-                          'C16.active.other'))
+                          SIG_REGEN_MID if (mid and n.name == last_global) else 'C16.active.other'))
         if n.cls == 2 and n.name != last_global:
             fails.append(('previous-style', {'state': name_of(n.name),
                                              'last_source': last_global and name_of(last_global)},
@@ -919,8 +1025,9 @@ def oracle_activity(run, mi, d):
         if parent is None:      # top-level states are the ones the Mermaid backend is able to style
             if n.name in cur and n.cls != 1:
                 fails.append(('active-missing', {'state': name_of(n.name), 'class': n.cls}, 'C16.active.missing'))
-            elif n.name == last_global and n.name not in cur and n.cls != 2:
-                fails.append(('previous-missing', {'state': name_of(n.name), 'class': n.cls}, 'C16.previous.missing'))
+            elif n.name == last_global and n.name not in cur and n.cls != 2 and not run.wiped[mi]:
+                fails.append(('previous-missing', {'state': name_of(n.name), 'class': n.cls},
+                              SIG_REGEN_MID if mid else 'C16.previous.missing'))
     return fails
 
 
